@@ -33,7 +33,7 @@ class NDSet(set):
         return iter(perm)
 
     def copy(self):
-        return NDSet(set.__iter__(self))
+        return type(self)(set.__iter__(self))
 
     def __or__(self, o):
         return NDSet(set.__or__(self, o))
@@ -45,9 +45,34 @@ class NDSet(set):
         return NDSet(set.__sub__(self, o))
 
 
+class NDSetFew(NDSet):
+    """Three representative iteration orders per distinct content (sorted, reversed,
+    rotated by one) instead of all n! - used for the sets whose order only influences
+    dict insertion order; stated as a bound, not as 'all seeds'."""
+
+    def __iter__(self):
+        items = sorted(set.__iter__(self), key=lambda x: (type(x).__name__, str(x)))
+        n = len(items)
+        if n <= 1:
+            return iter(items)
+        ex = core.cur()
+        memo = ex.path_memo
+        key = ("ndsetfew", tuple(str(x) for x in items))
+        perm = memo.get(key)
+        if perm is None:
+            cands = [tuple(items), tuple(reversed(items))]
+            rot = tuple(items[1:] + items[:1])
+            if rot not in cands:
+                cands.append(rot)
+            perm = cands[ex.choose(len(cands))]
+            memo[key] = perm
+        return iter(perm)
+
+
 class _T(ast.NodeTransformer):
-    def __init__(self, only_functions=None):
+    def __init__(self, only_functions=None, full_functions=None):
         self.only = only_functions
+        self.full = full_functions
         self.stack = []
         self.count = 0
 
@@ -60,11 +85,16 @@ class _T(ast.NodeTransformer):
     def _active(self):
         return self.only is None or any(f in self.only for f in self.stack)
 
+    def _name(self):
+        if self.full is not None and not any(f in self.full for f in self.stack):
+            return "_symx_NDSetFew"
+        return "_symx_NDSet"
+
     def visit_Call(self, node):
         self.generic_visit(node)
         if self._active() and isinstance(node.func, ast.Name) and node.func.id == "set":
             self.count += 1
-            return ast.copy_location(ast.Call(ast.Name("_symx_NDSet", ast.Load()), node.args, node.keywords), node)
+            return ast.copy_location(ast.Call(ast.Name(self._name(), ast.Load()), node.args, node.keywords), node)
         return node
 
     def visit_Set(self, node):
@@ -72,7 +102,7 @@ class _T(ast.NodeTransformer):
         if self._active():
             self.count += 1
             return ast.copy_location(
-                ast.Call(ast.Name("_symx_NDSet", ast.Load()), [ast.List(node.elts, ast.Load())], []), node)
+                ast.Call(ast.Name(self._name(), ast.Load()), [ast.List(node.elts, ast.Load())], []), node)
         return node
 
     def visit_SetComp(self, node):
@@ -80,15 +110,15 @@ class _T(ast.NodeTransformer):
         if self._active():
             self.count += 1
             return ast.copy_location(
-                ast.Call(ast.Name("_symx_NDSet", ast.Load()), [ast.ListComp(node.elt, node.generators)], []), node)
+                ast.Call(ast.Name(self._name(), ast.Load()), [ast.ListComp(node.elt, node.generators)], []), node)
         return node
 
 
-def _compile(src, path, only):
+def _compile(src, path, only, full=None):
     tree = ast.parse(src, path)
-    t = _T(only)
+    t = _T(only, full)
     tree = t.visit(tree)
-    imp = ast.parse("from symx.ndset import NDSet as _symx_NDSet").body[0]
+    imp = ast.parse("from symx.ndset import NDSet as _symx_NDSet, NDSetFew as _symx_NDSetFew").body[0]
     # keep `from __future__` / docstring first
     pos = 0
     while pos < len(tree.body) and (
@@ -111,5 +141,7 @@ def start_set_only(src, path):
 
 
 def all_sets(src, path):
-    """Every set() call / display / comprehension of the module."""
-    return _compile(src, path, None)
+    """Every set() call / display / comprehension of the module: all orders for the start
+    set of find_taskids / the name set of _get_regexp_indices, three representative orders
+    for every other set."""
+    return _compile(src, path, None, {"find_taskids", "_get_regexp_indices"})
